@@ -1,6 +1,7 @@
 """C18 - Verifiers and proof decoders fail cleanly on malformed input."""
 import json, os, re, sys
 from checklib import *
+import c18stark
 
 ENTRY = {"0": "plain-verify", "1": "compressed-verify", "2": "plain-decode", "3": "compressed-decode"}
 
@@ -56,6 +57,13 @@ def main():
             n1, d1, f1, s1 = scan(c, casefile)
             n += n1; fails += [dict(f, build=profile) for f in f1]; samples += s1
             for k, v in d1.items():
+                dist[k] = dist.get(k, 0) + v
+        # STARK entry point: verify_stark_proof on structured malformations (harness/src/c09.rs)
+        sfile = os.path.join(c.work, "cases_stark.txt")
+        if binary and c.run_harness(binary, "c18stark", sfile, timeout=6000):
+            n2, d2, f2 = c18stark.scan(sfile)
+            n += n2; fails += [dict(f, build=profile) for f in f2]
+            for k, v in d2.items():
                 dist[k] = dist.get(k, 0) + v
     reported = set()
     for f in fails:
